@@ -568,6 +568,10 @@ impl<R: BufRead> LosslessDecoder<R> {
                 let length_symbol = code - 256;
                 let length = Self::get_copy_distance(&mut self.bit_reader, length_symbol)?;
 
+                // The length took up to 15 + 10 bits; the distance may need 15 + 18 more.
+                if self.bit_reader.nbits < 33 {
+                    self.bit_reader.fill()?;
+                }
                 let dist_symbol = tree[DIST].read_symbol(&mut self.bit_reader)?;
                 let dist_code = Self::get_copy_distance(&mut self.bit_reader, dist_symbol)?;
                 let dist = Self::plane_code_to_distance(width, dist_code);
